@@ -1,4 +1,4 @@
 SPECIFICATION Spec
-CONSTANTS Tier = "small" PadFix = TRUE AppendFix = FALSE PoolFix = TRUE
+CONSTANTS Tier = "small" PadFix = TRUE AppendFix = FALSE PoolFix = TRUE FinalizerFix = TRUE
 INVARIANTS NotBad
 CHECK_DEADLOCK FALSE
